@@ -42,7 +42,7 @@ META = {
 
 # static part (independent of /repo): models, word lemmas, the parametric exactness theorems
 STATIC = ["C03/LIR.v", "C03/VSL.v", "C03/ArithSpec.v", "C03/WordArith.v", "C03/TypeLemmas.v", "C03/ArithModel.v",
-          "C03/TieBase.v", "C03/VSubst.v", "C03/LegacyExact.v", "C03/VenomExact.v"]
+          "C03/TieBase.v", "C03/VSubst.v", "C03/TieModels.v", "C03/LegacyExact.v", "C03/VenomExact.v"]
 # regenerated templates + the ties + the property theorems about the REAL templates
 LEGACY = ["C03/GenLegacy.v", "C03/TieLegacy.v", "C03/PropsLegacy.v"]
 VENOM = ["C03/GenVenom.v", "C03/TieVenom.v", "C03/PropsVenom.v"]
@@ -114,13 +114,29 @@ def build_chain(ctx, files, deps, res, key):
 
 
 # ------------------------------------------------------------------ (1) template differential / Search
-def template_differential(ctx, templates, kind, only_types=None, lit_sample=None):
+def mismatching_templates(kind):
+    """Ask Coq which exported templates differ from the parametric model (needs Gen*.vo + static TieModels.vo).
+    Returns a list of indices, or None if the question cannot be asked."""
+    gen, fn, tbl = ("GenLegacy", "tie_one", "legacy_templates") if kind == "legacy" else ("GenVenom", "vtie_one", "venom_templates")
+    try:
+        out = coqrun.eval_zlists(f"From Verif Require Import C03.TieModels C03.{gen}.\n",
+                                 [f"bad_idx {fn} 0 {tbl}"], "c03bad" + kind, timeout=300)
+        return out[0]
+    except Exception:  # noqa
+        return None
+
+
+def template_differential(ctx, templates, kind, only_types=None, lit_sample=None, force_idx=()):
     """exported templates: real back end on EVM  vs  Coq evaluator  vs  Coq arith_spec, on the boundary grid.
     Doubles as the Search for a broken tie/proof (evaluates whatever the generators emit NOW)."""
     rnd = ctx.rng(kind + "grid")
     size = 7 if ctx.tier == "quick" else 14
     idx = []
+    force_idx = set(force_idx)
     for j, (op, ty, sh, lit, n) in enumerate(templates):
+        if j in force_idx:
+            idx.append(j)
+            continue
         if only_types is not None and ty not in only_types:
             continue
         if sh != "VV" and lit_sample is not None and rnd.random() > lit_sample:
@@ -373,9 +389,20 @@ def run(ctx):
         if b["ok"]:
             only = set(tys[:6] + tys[-2:]) if ctx.tier == "quick" else None
             frac = 0.2 if ctx.tier == "quick" else 0.5
+            force = ()
         else:
-            only, frac = None, None
-        n, failing, bad_model = template_differential(ctx, templ, kind, only, frac)
+            # Search: the templates that differ from the proved model (all of them if Coq cannot tell), plus the
+            # usual sample
+            bad = mismatching_templates(kind)
+            if bad is None:
+                only, frac, force = None, (0.3 if ctx.tier == "quick" else None), ()
+            else:
+                step = max(1, len(bad) // 300)
+                force = bad[::step]
+                only = set(tys[:6] + tys[-2:]) if ctx.tier == "quick" else None
+                frac = 0.2 if ctx.tier == "quick" else 0.5
+            ctx.log(f"search {kind}: {None if bad is None else len(bad)} templates differ from the model")
+        n, failing, bad_model = template_differential(ctx, templ, kind, only, frac, force)
         total += n
         for op, ty, shape, c, e, g, node in failing[:5]:
             found = True
